@@ -257,6 +257,14 @@ def check_regex_resolution_per_evaluation(repo: Repo, res: Result) -> None:
         elif isinstance(recv, ast.Attribute) or (isinstance(recv, ast.Name) and cases and any(isinstance(single_value(va, v), ast.Attribute) for _s, v in cases)):
             fresh = False
             why_a = f"Rule.assert_applies evaluates with the stored matcher `{norm(recv, 40)}`"
+    # (a') for a *layer* rule the "matcher class" the wrapped Rule calls is the factory LayerRule hands over: a factory that
+    #      keeps the matcher it built serves the same matcher to every later assert_applies
+    from .c05_lowering import layer_matcher_factory
+
+    kept = layer_matcher_factory(repo).get("kept")
+    if kept and fresh is not False:
+        fresh = False
+        why_a = f"the matcher factory LayerRule hands to the wrapped Rule keeps the matcher it built (`{kept}`), so every assert_applies of a layer rule evaluates with the same matcher"
     # (b) does every match() resolve the regexes against its evaluable?
     vm = dview(repo, match, lm, family(repo, lm), tag="lm")
     ev = match.param_names[1] if len(match.param_names) > 1 else None
@@ -291,7 +299,8 @@ def check_regex_resolution_per_evaluation(repo: Repo, res: Result) -> None:
         g = guard_formula(vm, c)
         state_atoms = sorted(a for a in atoms_of(g) if any(w in a for w in written) or "getattr(self" in a or "hasattr(self" in a)
         if state_atoms and not implies(TRUE, g):
-            stateful.append((c, state_atoms))
+            short = [a for a in state_atoms if len(a) < 90]
+            stateful.append((c, short or [a[:87] + "..." for a in state_atoms[:1]]))
         if c in convs and ev is not None and not any(isinstance(x, ast.Name) and x.id == ev for a in [*c.args, *[k.value for k in c.keywords]] for x in ast.walk(a)):
             stateful.append((c, [f"the evaluable `{ev}` is not an argument"]))
     if not stateful:
@@ -299,7 +308,7 @@ def check_regex_resolution_per_evaluation(repo: Repo, res: Result) -> None:
         return
     c, atoms_ = stateful[0]
     if fresh:
-        res.add("C05.R7", construct, True, "the regex conversion depends on matcher state, but Rule.assert_applies builds a fresh matcher for every evaluation", where_of(vm, c), kind="dominance")
+        res.add("C05.R7", construct, True, "the per-evaluation resolution depends on matcher state, but a fresh matcher is built for every evaluation", where_of(vm, c), kind="dominance")
         res.observe(f"C05.R7 `{norm(c, 60)}` is skipped depending on {atoms_} (harmless while every evaluation builds a new matcher)")
     elif fresh is False:
         what = "regex conversion" if c in convs else "layer mapping"
